@@ -84,20 +84,30 @@ def run(ctx):
     scens, res = escen.tlc_scenarios(ctx, os.path.join(SPEC, 'LoopsScen.tla'), os.path.join(SPEC, 'MC_LoopsScen.cfg'))
     ctx.log('TLC: %d states, %d scenario classes' % (res.distinct, len(scens)))
     scens.sort(key=lambda c: json.dumps(c, sort_keys=True))
-    sq = squidctl.Squid(ctx, tree, clock=False)
-    sq.start()
-    try:
-        token = asyncio.run(learn_token(sq))
-        if not token:
-            raise vlib.MachineryError('could not learn the Via token')
+    out = []
+    token = None
+    # the same requests against the default configuration and with `via off` (Squid then adds no Via of its own, but a request that
+    # already names this Squid has still looped)
+    for cfgname, cfg in (('default', ''), ('viaoff', 'via off\n')):
+        sq = squidctl.Squid(ctx, tree, name='c63-' + cfgname, clock=False, conf_extra=cfg)
+        sq.start()
+        try:
+            if token is None:
+                token = asyncio.run(learn_token(sq))
+                if not token:
+                    raise vlib.MachineryError('could not learn the Via token')
 
-        async def main():
-            return await escen.gather_limited([realise(ctx, sq, i + 1, s, token, random.Random(ctx.seed * 100003 + i)) for i, s in enumerate(scens * (3 if ctx.thorough else 1))], limit=10)
-        out = asyncio.run(main())
-        if not sq.alive():
-            ctx.violation('squid exited during the run', {'kind': 'exit', 'log': sq.tail_log()})
-    finally:
-        sq.stop()
+            async def main():
+                base = 0 if cfgname == 'default' else 500000
+                return await escen.gather_limited([realise(ctx, sq, base + i + 1, s, token, random.Random(ctx.seed * 100003 + i)) for i, s in enumerate(scens * (3 if ctx.thorough else 1))], limit=10)
+            res_ = asyncio.run(main())
+            for o in res_:
+                o['config'] = cfgname
+            out += res_
+            if not sq.alive():
+                ctx.violation('squid exited during the run', {'kind': 'exit', 'log': sq.tail_log()})
+        finally:
+            sq.stop()
     rej = escen.validate(ctx, os.path.join(SPEC, 'Trace_Loops.tla'), os.path.join(SPEC, 'Trace_Loops.cfg'), [{'ev': o['ev']} for o in out], 'loops')
     ctx.log('Via token %r; realised %d requests; P-rejected %d' % (token, len(out), len(rej)))
     for i in rej[:5]:
